@@ -265,6 +265,22 @@ func C02bits(p *load.Program, run *report.Run) {
 							}
 							// the bit is the first result of a function that resolves the label against the wire and
 							// that the three-case evaluation accepts (L0 -> 0, L1 -> 1)
+							if call, ok := ast.Unparen(unwrapConv(t.Args[2])).(*ast.CallExpr); ok && pol == "" {
+								var fid *ast.Ident
+								switch f := ast.Unparen(call.Fun).(type) {
+								case *ast.Ident:
+									fid = f
+								case *ast.SelectorExpr:
+									fid = f.Sel
+								}
+								if fid != nil {
+									if fo, ok := rpkg.TypesInfo.Uses[fid].(*types.Func); ok {
+										if sf := p.SSA.FuncValue(fo); sf != nil && labelDecider(sf).ok {
+											pol = "by-decider"
+										}
+									}
+								}
+							}
 							if id, ok := ast.Unparen(unwrapConv(t.Args[2])).(*ast.Ident); ok && pol == "" {
 								ast.Inspect(body, func(q ast.Node) bool {
 									as, ok := q.(*ast.AssignStmt)
